@@ -7,10 +7,12 @@
 EXTENDS RenderP, Json
 CONSTANTS Dev,       \* negative control "FIXEDCHARSET": PlainText ignores the configured charset
           EmitCases
-VARIABLES fmt, status, cs, indent, pos
-vars == <<fmt, status, cs, indent, pos>>
+VARIABLES fmt, status, cs, indent, indent2, pos
+vars == <<fmt, status, cs, indent, indent2, pos>>
 Init == /\ fmt \in Formats /\ status \in {200, 201, 404, 500} /\ cs \in {"", "latin1"}
-        /\ indent \in {"", "  "} /\ pos \in {"after", "before"}
+        /\ indent \in {"", "  "}            \* the indentation configured for THIS format
+        /\ indent2 \in {"", "    "}         \* the one configured for the other encoder (JSONIndent vs XMLIndent)
+        /\ pos \in {"after", "before"}
 Next == UNCHANGED vars
 Spec == Init /\ [][Next]_vars
 \* parseRenderOptions + the four methods
@@ -24,5 +26,5 @@ I_ContentType ==
 I_Obs == [resolved |-> pos = "after", status |-> status, ctype |-> I_ContentType, ctype_at_hdr |-> I_ContentType,
           roundtrip |-> TRUE, body_eq_std |-> TRUE]
 Conforms == P_RenderOK(fmt, status, cs, pos, I_Obs)
-EmitCase == EmitCases => PrintT("CASE " \o ToJson([fmt |-> fmt, status |-> status, cs |-> cs, indent |-> indent, pos |-> pos]))
+EmitCase == EmitCases => PrintT("CASE " \o ToJson([fmt |-> fmt, status |-> status, cs |-> cs, indent |-> indent, indent2 |-> indent2, pos |-> pos]))
 ====
